@@ -246,7 +246,7 @@ _single = st.one_of(
 
 @st.composite
 def event_strategy(draw, charset):
-    keys = draw(st.lists(st.sampled_from(["data", "data", "event", "id", "retry"]), unique=True, min_size=1, max_size=4))
+    keys = draw(st.lists(st.sampled_from(["data", "data", "event", "id", "retry"]), unique=True, min_size=0 if draw(st.integers(0, 5)) == 0 else 1, max_size=4))
     keys = draw(st.permutations(keys))
     ev = {}
     for k in keys:
@@ -279,6 +279,9 @@ def sep_cases():
     for s in specials:
         for t in specials:
             yield {"events": [{"data": "a" + s + "b" + t + "c"}], "charset": "utf-8", "pings": []}
+    # events that carry nothing (or nothing but control fields) must not end or disturb the stream
+    yield {"events": [{}, {"data": "after-empty"}], "charset": "utf-8", "pings": []}
+    yield {"events": [{"data": "first"}, {}, {}, {"id": "9"}, {"data": "last"}], "charset": "utf-8", "pings": [1]}
 
 
 @st.composite
@@ -302,8 +305,17 @@ def wsgi_ping_case(draw):
     return {"events": events, "charset": charset, "delays": delays, "ping": 0.02}
 
 
+def flow_fixed_cases():
+    for side in ("asgi", "wsgi"):
+        yield side, {"events": [{}, {"data": "after-empty"}], "charset": "utf-8", "delays": [0, 0], "ping": 30}
+        yield side, {"events": [{"data": "a"}, {}, {"retry": 5}, {"data": "b", "event": "e"}], "charset": "latin-1", "delays": [0, 0, 0, 0], "ping": 30}
+        yield side, {"events": [{"event": "\xe9v", "id": "\xfc", "data": "\xe0"}], "charset": "latin-1", "delays": [0], "ping": 30}
+
+
 def run(rec, only=None):
     quick = rec.tier == "quick"
+    for side, case in flow_fixed_cases():
+        core.drive_cases(rec, side, [case], oracle_asgi if side == "asgi" else oracle_wsgi)
     core.drive_cases(rec, "sep", sep_cases(), oracle_block)
     rec.exhaustive["sep"] = True
     core.drive_hypothesis(rec, "block", block_case(), oracle_block, 2500 if quick else 60000)
